@@ -209,3 +209,80 @@ Proof.
   exists (RText [RStr [76; 111]%N; RTag [101; 109]%N [RStr [99; 97; 116]%N]; RStr [33]%N]), [116; 33]%N.
   split; [|reflexivity]. exists [ACh 76; ACh 111; ACh 99; ACh 97]%N. reflexivity.
 Qed.
+
+(* ------------------------------------------------------------------------------ *)
+(* on a one-String text, however deeply wrapped in Text / Tag / HRef / Protected, the three
+   observers are exactly the str operations on the characters of the rendering *)
+Lemma chain_atoms t s : chain t s -> atoms (flat t) = map ACh s.
+Proof.
+  induction 1; [apply atoms_str| | | |];
+    (rewrite atoms_multi by reflexivity; unfold inner; cbn [parts_of map concat]; now rewrite app_nil_r).
+Qed.
+
+Lemma startswith_nil' s : startswith s [] = true.
+Proof. destruct s; reflexivity. Qed.
+Lemma str_contains_nil s : str_contains s [] = true.
+Proof. unfold str_contains. destruct (length s); cbn [substr]; now rewrite startswith_nil'. Qed.
+
+Lemma chain_contains t s p : chain t s -> rcontains t p = str_contains s p.
+Proof.
+  induction 1; [reflexivity| | | |]; cbn [rcontains existsb]; rewrite IHchain, orb_false_r;
+    (destruct p; [now rewrite str_contains_nil|reflexivity]).
+Qed.
+Lemma chain_first t s : chain t s -> first_leaf t = Some s.
+Proof. induction 1; [reflexivity| | | |]; exact IHchain. Qed.
+Lemma chain_last t s : chain t s -> last_leaf t = Some s.
+Proof. induction 1; [reflexivity| | | |]; exact IHchain. Qed.
+
+Lemma ACh_inj (a b : str) : map ACh a = map ACh b -> a = b.
+Proof.
+  revert b; induction a as [|x a IH]; intros [|y b] E; cbn in E; try discriminate; [reflexivity|].
+  inversion E; subst. f_equal. now apply IH.
+Qed.
+Lemma occurs_ACh p s : occurs (map ACh p) (map ACh s) <-> occurs p s.
+Proof.
+  split; [|apply occurs_map]. intros [a [b E]].
+  apply map_eq_app in E as [a' [r [-> [Ea Er]]]]. apply map_eq_app in Er as [p' [b' [-> [Ep Eb]]]].
+  apply ACh_inj in Ep. subst p'. now exists a', b'.
+Qed.
+Lemma prefix_ACh p s : prefix_of (map ACh p) (map ACh s) <-> prefix_of p s.
+Proof.
+  split.
+  - intros [b E]. apply map_eq_app in E as [p' [b' [-> [Ep Eb]]]]. apply ACh_inj in Ep. subst p'. now exists b'.
+  - intros [b ->]. exists (map ACh b). apply map_app.
+Qed.
+Lemma suffix_ACh p s : suffix_of (map ACh p) (map ACh s) <-> suffix_of p s.
+Proof.
+  split.
+  - intros [a E]. apply map_eq_app in E as [a' [p' [-> [Ea Ep]]]]. apply ACh_inj in Ep. subst p'. now exists a'.
+  - intros [a ->]. exists (map ACh a). apply map_app.
+Qed.
+
+Theorem contains_chain_lem t s p : chain t s ->
+  (rcontains t p = true <-> occurs (map ACh p) (atoms (flat t))).
+Proof. intro C. now rewrite (chain_contains t s p C), (chain_atoms t s C), str_contains_iff, occurs_ACh. Qed.
+
+Theorem startswith_chain_lem t s ps : chain t s ->
+  (rstartswith t ps = true <-> exists p, In p ps /\ prefix_of (map ACh p) (atoms (flat t))).
+Proof.
+  intro C. rewrite startswith_exact_lem, (chain_first t s C), (chain_atoms t s C), existsb_exists.
+  split; intros [p [Hin H]]; exists p; (split; [exact Hin|]).
+  - apply prefix_ACh. now apply startswith_iff.
+  - apply startswith_iff. now apply prefix_ACh.
+Qed.
+
+Lemma suffix_rev (p s : str) : startswith (rev s) (rev p) = true <-> suffix_of p s.
+Proof.
+  rewrite startswith_iff. split.
+  - intros [b E]. exists (rev b). rewrite <- (rev_involutive s), E, rev_app_distr, rev_involutive. reflexivity.
+  - intros [a ->]. exists (rev a). apply rev_app_distr.
+Qed.
+
+Theorem endswith_chain_lem t s ps : chain t s ->
+  (rendswith t ps = true <-> exists p, In p ps /\ suffix_of (map ACh p) (atoms (flat t))).
+Proof.
+  intro C. rewrite endswith_exact_lem, (chain_last t s C), (chain_atoms t s C), existsb_exists.
+  split; intros [p [Hin H]]; exists p; (split; [exact Hin|]).
+  - apply suffix_ACh. now apply suffix_rev.
+  - apply suffix_rev. now apply suffix_ACh.
+Qed.
